@@ -833,3 +833,16 @@ package statsd
 //@   callsite NewHttpForwarderHandlerV2 requires compress == viperBool(lastresult(newHTTPForwarderHandlerViperConfig, 0), "compress")
 //@   callsite NewHttpForwarderHandlerV2 requires maxRequestElapsedTime == viperDuration(lastresult(newHTTPForwarderHandlerViperConfig, 0), "max-request-elapsed-time") && flushInterval == viperDuration(lastresult(newHTTPForwarderHandlerViperConfig, 0), "flush-interval")
 //@   modifies everything
+
+// The flush goroutine of the forwarder (C07/C15): the maps the consolidator flushed are merged into one map first --
+// so that a series that landed in several slots is sent once, with the merged value -- and that merged map is what
+// gets split by the dynamic-header tags; every non-empty part is posted by exactly one goroutine.
+//@ func (*HttpForwarderHandlerV2).Run$1$1
+//@   floats real
+//@   captures hfh != nil && len(metricMaps) > 0 && (forall i int :: 0 <= i && i < len(metricMaps) ==> mergeable(metricMaps[i]))
+//@   callsite MergeMaps requires mms == metricMaps
+//@   callsite SplitByTags requires receiver == lastresult(MergeMaps, 0) && tagNames == hfh.dynHeaderNames
+//@   callsite Run$1$1$1 requires metricMap == local(mm)
+//@   loop 1 invariant calls(MergeMaps) == 1 && calls(SplitByTags) == 1
+//@   ensures  calls(MergeMaps) == 1 && calls(SplitByTags) == 1
+//@   modifies everything
